@@ -62,19 +62,23 @@ RNANoLink(t, i) ==
          /\ Method(p.kind) = "POST" /\ p.status >= 200 /\ p.status < 400
          /\ SameResource(p, t[i])
     /\ ~\E j \in (t[i].parent + 1)..(i - 1) : SuccessfulDelete(t, j, i)
-RNAAllowed(t, i, lnk) == lnk /\ RNANoLink(t, i)
+RNAAllowed(t, i, lnk, ext) == lnk /\ ~ext /\ RNANoLink(t, i)
 
-VARIABLES tree, link
-vars == <<tree, link>>
-Init == tree = <<>> /\ link = TRUE
+VARIABLES tree, link, extra
+vars == <<tree, link, extra>>
+Init == tree = <<>> /\ link = TRUE /\ extra = FALSE
 Reduced(n) == n.status \in {200, 201, 204, 403, 404}
-Append1 == /\ link /\ Len(tree) < MaxN
+Append1 == /\ link /\ ~extra /\ Len(tree) < MaxN
            /\ (Rich \/ \A i \in 1..Len(tree) : Reduced(tree[i]))
            /\ \E n \in NodeAt(Len(tree) + 1) : tree' = Append(tree, n)
-           /\ UNCHANGED link
-Unlink == /\ link /\ tree # <<>> /\ HasId(tree[Len(tree)].kind) /\ RNANoLink(tree, Len(tree))
-          /\ link' = FALSE /\ UNCHANGED tree
-Next == Append1 \/ Unlink
+           /\ UNCHANGED <<link, extra>>
+Unlink == /\ link /\ ~extra /\ tree # <<>> /\ HasId(tree[Len(tree)].kind) /\ RNANoLink(tree, Len(tree))
+          /\ link' = FALSE /\ UNCHANGED <<tree, extra>>
+(* the same link-derived request carrying, in addition, an OPTIONAL parameter the link does not supply and the generator filled in:
+   not all of its parameters came from the link any more *)
+AddExtra == /\ link /\ ~extra /\ tree # <<>> /\ tree[Len(tree)].kind = "GET user posts" /\ RNANoLink(tree, Len(tree))
+            /\ extra' = TRUE /\ UNCHANGED <<tree, link>>
+Next == Append1 \/ Unlink \/ AddExtra
 Spec == Init /\ [][Next]_vars
 
 (* design-level sanity, checked by TLC on every enumerated tree *)
@@ -82,7 +86,7 @@ TypeOK == /\ Len(tree) <= MaxN
           /\ \A i \in 1..Len(tree) : tree[i].parent < i
 UAFNeedsDelete == \A i \in 1..Len(tree) : UAF(tree, i) => \E j \in 1..(i - 1) : Method(tree[j].kind) = "DELETE"
 UAFNever404 == \A i \in 1..Len(tree) : UAF(tree, i) => tree[i].status # 404
-RNAOnly4xxChildOfPost == \A i \in 1..Len(tree) : RNAAllowed(tree, i, TRUE) =>
+RNAOnly4xxChildOfPost == \A i \in 1..Len(tree) : RNAAllowed(tree, i, TRUE, FALSE) =>
                             /\ tree[i].status \in 400..499 /\ tree[i].parent # 0
                             /\ Method(tree[tree[i].parent].kind) = "POST"
 (* a successful delete of the resource between creation and use excludes RNA and, unless 404, implies UAF *)
@@ -91,7 +95,7 @@ DeleteSeparates == \A i \in 1..Len(tree) : (RNANoLink(tree, i) /\ tree[i].status
 
 (* export: every reachable (tree, link) with the spec's verdicts for the last node *)
 Export == IF tree = <<>> THEN TRUE
-          ELSE PrintT(<<"CASE", ToJson([tree |-> tree, link |-> link,
+          ELSE PrintT(<<"CASE", ToJson([tree |-> tree, link |-> link, extra |-> extra,
                                          uaf |-> UAF(tree, Len(tree)),
-                                         rna |-> RNAAllowed(tree, Len(tree), link)])>>)
+                                         rna |-> RNAAllowed(tree, Len(tree), link, extra)])>>)
 =============================================================================
